@@ -48,8 +48,15 @@ M("c01-pyeval-mod-guard-dropped", ["C01", "C05"], PYEVAL,
   '                if op_b == 0:\n                    return 0\n                return op_a % op_b', '                return op_a % op_b', "R-01b")
 M("c01-pyeval-ge-as-gt", ["C01", "C05"], PYEVAL,
   'return int(op_a >= op_b)', 'return int(op_a > op_b)', "R-01b")
+# (v | -1 << W) equals (v | -1 << (W-1)) when bit W-1 of v is set: behaviour preserving, must stay silent
+M("c01-benign-pyeval-s-fold-at-w", ["C01", "C05"], PYEVAL,
+  'res |= -1 << (width - 1)', 'res |= -1 << width', "silent")
 M("c01-pyeval-s-fold-wrong-bit", ["C01", "C05"], PYEVAL,
-  'res |= -1 << (width - 1)', 'res |= -1 << width', "R-01d")
+  'res |= -1 << (width - 1)', 'res |= -1 << (width + 1)', "R-01d")
+M("c01-pyeval-s-test-wrong-bit", ["C01", "C05"], PYEVAL,
+  'if value.operator == "s" and res & (1 << (width - 1)):', 'if value.operator == "s" and res & (1 << width):', "R-01d")
+M("c01-benign-pyeval-mask-spelling", ["C01", "C05"], PYEVAL,
+  '        return res & ((1 << width) - 1)\n    elif isinstance(value, Part):', '        return res & ~(-1 << width)\n    elif isinstance(value, Part):', "silent")
 M("c01-pyeval-slice-no-shift", ["C01", "C05"], PYEVAL,
   '        res >>= value.start\n        width = value.stop - value.start', '        width = value.stop - value.start', "R-01d")
 M("c01-pyeval-part-stride-dropped", ["C01", "C05"], PYEVAL,
